@@ -32,47 +32,104 @@ EXTENDS Integers, Sequences, FiniteSets, TLC
 (*   plus required) | phonenp(a..b, plus optional) | custom (a user lambda)  *)
 V(k, a, b, msg) == [k |-> k, a |-> a, b |-> b, msg |-> msg]
 
-Types == {"int", "str", "optint"}
+\* field types: int, std::string, std::optional<int>, std::vector<int>, std::vector<std::string>,
+\* std::map<std::string,int>, a nested object {x:int}
+Types == {"int", "str", "optint", "vecint", "vecstr", "mapint", "obj"}
+Sized == {"str", "vecint", "vecstr", "mapint"}           \* types with size()
 
-\* which validators can be attached to which field type (C++: Range<int> on int, size()/string_view on std::string)
+\* which validators can be attached to which field type (C++: Range<int> on int, size() for MinSize/MaxSize,
+\* string_view for Email/PhoneNumber; the scenario's lambda exists for numbers, strings and the nested object)
 Applicable(v, t) ==
-  CASE v.k \in {"req", "custom"} -> TRUE
+  CASE v.k = "req" -> TRUE
+    [] v.k = "custom" -> t \in {"int", "optint", "str", "obj"}
     [] v.k = "range" -> t = "int"
-    [] v.k \in {"minsize", "maxsize", "email", "phone", "phonenp"} -> t = "str"
+    [] v.k \in {"minsize", "maxsize"} -> t \in Sized
+    [] v.k \in {"email", "phone", "phonenp"} -> t = "str"
 
 -----------------------------------------------------------------------------
-(* Documents.  doc of a field: <<"int", n>> | <<"str", s>> | <<"absent">> | <<"null">>                    *)
-(* (a string where a number is expected, or a number where a string is expected = mismatched-and-skipped) *)
+(* Documents.  doc of a field: <<"int", n>> | <<"str", s>> | <<"ints", <<n..>>>> | <<"strs", <<s..>>>> |       *)
+(*   <<"imap", << <<key, n>>.. >>>> | <<"obj", x>> (object {x}) | <<"absent">> | <<"null">>                        *)
+(* A value of another kind than the field's type (a string for a number, a number for a string or a container)    *)
+(* is mismatched: skipped = not loaded with MismatchedTypesPolicy::Skip, SerializationException(MismatchedTypes)   *)
+(* with the default policy ThrowError.  null and absent are "not loaded" under both policies.                      *)
+KindOf(t) == CASE t \in {"int", "optint"} -> "int" [] t = "str" -> "str" [] t = "vecint" -> "ints" [] t = "vecstr" -> "strs"
+               [] t = "mapint" -> "imap" [] t = "obj" -> "obj"
+IsLoaded(t, doc) == doc[1] = KindOf(t)
+IsMismatch(t, doc) == doc[1] \notin {"absent", "null", KindOf(t)}
+Size(doc) == Len(doc[2])                                  \* size() of a loaded string / container
 
-IsLoaded(t, doc) == IF t = "str" THEN doc[1] = "str" ELSE doc[1] = "int"
-
-\* value of the target after the load of a field that was / was not loaded (harness: val_harness.cpp Prior*)
+\* value of the target after the load of a field that was / was not loaded (harness: val_harness.cpp VObj)
 LoadedValue(t, doc) == IF t = "optint" THEN <<"some", doc[2]>> ELSE doc
-PriorValue(t) == IF t = "int" THEN <<"int", 77>> ELSE IF t = "str" THEN <<"str", "prior">> ELSE <<"none">>
+PriorValue(t) ==
+  CASE t = "int" -> <<"int", 77>> [] t = "str" -> <<"str", "prior">> [] t = "optint" -> <<"none">>
+    [] t = "vecint" -> <<"ints", <<>>>> [] t = "vecstr" -> <<"strs", <<>>>> [] t = "mapint" -> <<"imap", <<>>>> [] t = "obj" -> <<"obj", 77>>
 
 -----------------------------------------------------------------------------
 (* Email / PhoneNumber: bound only on the documented examples (README table, README sample, validators_tests.cpp). *)
 (* Their grammar is not part of the property's stated semantics: a string outside these tables is out of scope.  *)
-EmailValid   == {"simple@example.com", "very.common@example.com", "x@example.com"}
-EmailInvalid == {"abc.example.com", "a@b@example.com", "first last@example.com", "smith 2000@mail.com"}
+EmailValid   == {"simple@example.com", "very.common@example.com", "x@example.com", "admin@example", "admin@example10.com",
+                 "admin@best-example.com", "0123456789@example.com"}
+EmailInvalid == {"abc.example.com", "a@b@example.com", "first last@example.com", "smith 2000@mail.com",       \* no @, two @, space
+                 "@", ".name@example.com", "name.@example.com", "first..last@example.com",                    \* dots in the local part
+                 "john(doe)@example.org)", "john<doe>@example.org)",                                          \* characters not allowed
+                 "john_doe@", "john_doe@-example.com", "john_doe@example.com-", "john_doe@10example.com",     \* domain part
+                 "john_doe@example com", "john_doe@example_com"}
 
-\* phone examples: string -> [digits, plus]   (all are well-formed apart from the optional plus and the digit count)
-PhoneExamples == {"+555 (55) 555-55-55", "+44 20 7123 1234", "+1 (555) 555-55-55", "(55) 555 55 55", "555 5 55 55", "+12345", "+1234567890123"}
-PhoneDigits(s) == CASE s = "+555 (55) 555-55-55" -> 12 [] s = "+44 20 7123 1234" -> 12 [] s = "+1 (555) 555-55-55" -> 11
-                    [] s = "(55) 555 55 55" -> 9 [] s = "555 5 55 55" -> 7 [] s = "+12345" -> 5 [] s = "+1234567890123" -> 13
-PhoneHasPlus(s) == s \notin {"(55) 555 55 55", "555 5 55 55"}
+\* Phone examples (README, validators_tests.cpp).  Facts per string, transcribed by reading PhoneNumber::operator():
+\*   d = number of digits, plus = starts with '+', err = the error the character loop stops with ("" = none),
+\*   open = a parenthesis is open when the loop ends
+PhDash  == "Invalid phone number (dashes should be used to separate numbers)"
+PhNest  == "Invalid phone number (contains nested parentheses)"
+PhClose == "Invalid phone number (invalid closing parenthesis)"
+PhChars == "Invalid phone number (contains invalid characters)"
+PhF(d, plus, err, open) == [d |-> d, plus |-> plus, err |-> err, open |-> open]
+PhoneFacts(s) ==
+  CASE s = "+555 (55) 555-55-55" -> PhF(12, TRUE, "", FALSE)
+    [] s = "+44 20 7123 1234"    -> PhF(12, TRUE, "", FALSE)
+    [] s = "+1 (555) 555-55-55"  -> PhF(11, TRUE, "", FALSE)
+    [] s = "+91-22-27782183"     -> PhF(12, TRUE, "", FALSE)
+    [] s = "(55) 555 55 55"      -> PhF(9, FALSE, "", FALSE)
+    [] s = "555 5 55 55"         -> PhF(8, FALSE, "", FALSE)
+    [] s = "+12345"              -> PhF(5, TRUE, "", FALSE)
+    [] s = "+1234567890123"      -> PhF(13, TRUE, "", FALSE)
+    [] s = "+1 ((555)) 555-55-55" -> PhF(1, TRUE, PhNest, TRUE)
+    [] s = "+1 (555 555-55-55"   -> PhF(11, TRUE, "", TRUE)
+    [] s = "+1 (555) )555-55-55" -> PhF(4, TRUE, PhClose, FALSE)
+    [] s = "+1 () 555-55-55"     -> PhF(1, TRUE, PhClose, TRUE)
+    [] s = "+1 555 555-55-55 )"  -> PhF(11, TRUE, PhClose, FALSE)
+    [] s = "+1 555 555-55-55 ()" -> PhF(11, TRUE, PhClose, TRUE)
+    [] s = "-1 (555) 555-5555"   -> PhF(0, FALSE, PhDash, FALSE)
+    [] s = "-(555) 555-5555"     -> PhF(0, FALSE, PhDash, FALSE)
+    [] s = "+1 (555) 555--5555"  -> PhF(7, TRUE, PhDash, FALSE)
+    [] s = "+1 (555) 555-5555-"  -> PhF(11, TRUE, PhDash, FALSE)
+    [] s = "+1 (555) -555-55-55" -> PhF(4, TRUE, PhDash, FALSE)
+    [] s = "+1 (-555) 555-55-55" -> PhF(1, TRUE, PhDash, TRUE)
+    [] s = "+1 (555-) 555-55-55" -> PhF(4, TRUE, PhClose, TRUE)
+    [] s = "*1 (555) 555-55-55"  -> PhF(0, FALSE, PhChars, FALSE)
+    [] s = "1 (555) 555-55-55$"  -> PhF(11, FALSE, PhChars, FALSE)
+    [] s = "1 (555) 555-55=55"   -> PhF(9, FALSE, PhChars, FALSE)
+PhoneExamples == {"+555 (55) 555-55-55", "+44 20 7123 1234", "+1 (555) 555-55-55", "+91-22-27782183", "(55) 555 55 55", "555 5 55 55",
+                  "+12345", "+1234567890123", "+1 ((555)) 555-55-55", "+1 (555 555-55-55", "+1 (555) )555-55-55", "+1 () 555-55-55",
+                  "+1 555 555-55-55 )", "+1 555 555-55-55 ()", "-1 (555) 555-5555", "-(555) 555-5555", "+1 (555) 555--5555",
+                  "+1 (555) 555-5555-", "+1 (555) -555-55-55", "+1 (-555) 555-55-55", "+1 (555-) 555-55-55", "*1 (555) 555-55-55",
+                  "1 (555) 555-55-55$", "1 (555) 555-55=55"}
 
-\* "" = passes, otherwise the default message (transcribed from validators.h)
+\* "" = passes, otherwise the default message (texts and their precedence transcribed from validators.h: an open
+\* parenthesis wins over the missing plus, which wins over the error of the character loop; the number of digits is
+\* examined only for a well-formed number; one text for min = max, another for min < max)
 PhoneVerdict(v, s) ==
-  IF v.k = "phone" /\ ~PhoneHasPlus(s) THEN "Invalid phone number (missing initial `+`)"
-  ELSE IF PhoneDigits(s) < v.a \/ PhoneDigits(s) > v.b THEN
+  LET f == PhoneFacts(s) IN
+  IF f.open THEN "Invalid phone number (missing closing parenthesis)"
+  ELSE IF v.k = "phone" /\ ~f.plus THEN "Invalid phone number (missing initial `+`)"
+  ELSE IF f.err # "" THEN f.err
+  ELSE IF f.d < v.a \/ f.d > v.b THEN
          (IF v.a = v.b THEN "Invalid phone number (must contain " \o ToString(v.a) \o " digits)"
           ELSE "Invalid phone number (the number of digits must be from " \o ToString(v.a) \o " to " \o ToString(v.b) \o ")")
   ELSE ""
 
 \* strings of the model that contain a space (the README's custom lambda: "The field must not contain spaces")
-WithSpace == {"a b", "first last@example.com", "smith 2000@mail.com", "+555 (55) 555-55-55", "+44 20 7123 1234", "+1 (555) 555-55-55",
-              "(55) 555 55 55", "555 5 55 55"}
+WithSpace == {"a b", "first last@example.com", "smith 2000@mail.com", "john_doe@example com"}
+             \cup (PhoneExamples \ {"+91-22-27782183", "+12345", "+1234567890123"})
 
 \* is the verdict of validator v on document value doc stated by the documentation?
 InScopeV(v, t, doc) ==
@@ -87,8 +144,8 @@ Fails(v, t, doc) ==
   LET L == IsLoaded(t, doc) IN
   CASE v.k = "req"     -> ~L                                             \* fails iff the field was not loaded
     [] v.k = "range"   -> L /\ (doc[2] < v.a \/ doc[2] > v.b)             \* inclusive, passes when not loaded
-    [] v.k = "minsize" -> L /\ Len(doc[2]) < v.a
-    [] v.k = "maxsize" -> L /\ Len(doc[2]) > v.a
+    [] v.k = "minsize" -> L /\ Size(doc) < v.a                          \* strings and containers alike
+    [] v.k = "maxsize" -> L /\ Size(doc) > v.a
     [] v.k = "email"   -> L /\ doc[2] \in EmailInvalid
     [] v.k \in {"phone", "phonenp"} -> L /\ PhoneVerdict(v, doc[2]) # ""
     [] v.k = "custom"  -> L /\ (IF t = "str" THEN doc[2] \in WithSpace ELSE (doc[2] % 2) # 0)   \* the scenario's lambda
@@ -113,7 +170,8 @@ FailMsgsFrom(f, j) ==
 FailMsgs(f) == FailMsgsFrom(f, 1)
 
 -----------------------------------------------------------------------------
-(* Classes and placements.  Scenario s = [place, nel, cap, fields]; field = [key, t, st, doc, vs].        *)
+(* Classes and placements.  Scenario s = [place, nel, cap, pol, fields]; field = [key, t, st, doc, vs];   *)
+(* pol = "skip" | "throw" (mismatchedTypesPolicy).                                                        *)
 (*  flat    : the validated class is the root object                       path  /key                    *)
 (*  nested  : root object with member "n" of the validated class                 /n/key                  *)
 (*  arr     : root object with member "arr" = array of nel objects               /arr/<i>/key            *)
@@ -192,14 +250,26 @@ Min(a, b) == IF a < b THEN a ELSE b
 \* "the maximum number of validation errors that will be collected before an exception is thrown" + "number of errors for
 \* each particular field is unlimited in any case"  =>  exactly `cap` FIELDS are reported, the first ones in load order,
 \* each with all of its messages; the load ends at the cap-th failing field.
+\* With the default policy (ThrowError) a mismatched value ends the load with SerializationException(MismatchedTypes)
+\* ("When a type from the archive does not match to the target value (can be configured via MismatchedTypesPolicy)"):
+\* only the fields before it are validated, and what was collected is not reported (mm = TRUE) - unless the cap ended
+\* the load with a ValidationException before.
 \* result: rep = reported entries [i (instance index), msgs] in load order; stop = index of the instance at which the
-\* load ends early (cap reached), or 0 when the load runs to its end
+\* load ends early (cap reached), or 0; mm = the load ends with the MismatchedTypes error
+FirstMismatch(s, inst) ==
+  IF s.pol = "throw" /\ \E i \in 1..Len(inst) : IsMismatch(inst[i].f.t, inst[i].f.doc)
+  THEN CHOOSE i \in 1..Len(inst) : IsMismatch(inst[i].f.t, inst[i].f.doc) /\ \A q \in 1..(i - 1) : ~IsMismatch(inst[q].f.t, inst[q].f.doc)
+  ELSE 0
 A(s, inst) ==
-  LET failing == FailingFrom(inst, 1)
+  LET mmAt == FirstMismatch(s, inst)
+      failing == FailingFrom(IF mmAt = 0 THEN inst ELSE SubSeq(inst, 1, mmAt - 1), 1)
       n == IF s.cap = 0 THEN Len(failing) ELSE Min(s.cap, Len(failing))         \* the cap limits the number of FIELDS
-  IN [rep  |-> SubSeq([j \in 1..n |-> [i |-> failing[j], msgs |-> inst[failing[j]].msgs]], 1, n),
-      exc  |-> n > 0,                                                          \* ValidationException iff something fails
-      stop |-> IF s.cap > 0 /\ Len(failing) >= s.cap THEN failing[s.cap] ELSE 0]
+      stop == IF s.cap > 0 /\ Len(failing) >= s.cap THEN failing[s.cap] ELSE 0
+      mm == mmAt # 0 /\ stop = 0
+  IN [rep  |-> IF mm THEN <<>> ELSE SubSeq([j \in 1..n |-> [i |-> failing[j], msgs |-> inst[failing[j]].msgs]], 1, n),
+      exc  |-> ~mm /\ n > 0,                                                   \* ValidationException iff something fails
+      stop |-> stop,
+      mm   |-> mm]
 
 \* the named deviation of the unchanged tree: the exception is thrown from inside AddValidationError as soon as the map
 \* holds `cap` paths, i.e. after the FIRST failing validator of the cap-th failing field; its further messages are lost.
@@ -218,7 +288,7 @@ AddValidationError(st, cap, i, path, msg) ==
   LET k == MapFind(st.map, path)
       map1 == IF k = 0 THEN Append(st.map, [i |-> i, path |-> path, msgs |-> <<msg>>])
               ELSE [st.map EXCEPT ![k].msgs = Append(@, msg)]
-  IN IF cap > 0 /\ Len(map1) = cap THEN [map |-> map1, thrown |-> TRUE, stop |-> i]      \* OnFinishSerialization() throws now
+  IN IF cap > 0 /\ Len(map1) = cap THEN [map |-> map1, thrown |-> TRUE, stop |-> i, mm |-> FALSE]      \* OnFinishSerialization() throws now
      ELSE [st EXCEPT !.map = map1]
 
 \* repaired shape: all messages of the field first, then the comparison with the cap
@@ -226,7 +296,7 @@ AddValidationErrors(st, cap, i, path, msgs) ==
   LET k == MapFind(st.map, path)
       map1 == IF k = 0 THEN Append(st.map, [i |-> i, path |-> path, msgs |-> msgs])
               ELSE [st.map EXCEPT ![k].msgs = @ \o msgs]
-  IN IF cap > 0 /\ Len(map1) = cap THEN [map |-> map1, thrown |-> TRUE, stop |-> i]
+  IN IF cap > 0 /\ Len(map1) = cap THEN [map |-> map1, thrown |-> TRUE, stop |-> i, mm |-> FALSE]
      ELSE [st EXCEPT !.map = map1]
 
 \* path handed to the context: the scope's GetPath() + separator + key
@@ -240,20 +310,22 @@ MValidators(st, cap, i, ins, j, garble) ==     \* KeyValue::VisitArgs: validator
        THEN MValidators(AddValidationError(st, cap, i, MPath(ins.comps, garble), ins.vr[j]), cap, i, ins, j + 1, garble)
        ELSE MValidators(st, cap, i, ins, j + 1, garble)
 
-RECURSIVE MFields(_, _, _, _, _, _)
-MFields(st, cap, insts, i, fixed, garble) ==
-  IF st.thrown \/ i > Len(insts) THEN st
+RECURSIVE MFields(_, _, _, _, _, _, _)
+MFields(st, cap, insts, i, fixed, garble, pol) ==
+  IF st.thrown \/ st.mm \/ i > Len(insts) THEN st
+  ELSE IF pol = "throw" /\ IsMismatch(insts[i].f.t, insts[i].f.doc) THEN [st EXCEPT !.mm = TRUE]     \* Serialize() of the value throws
   ELSE LET st1 == IF fixed
                   THEN (IF insts[i].msgs = <<>> THEN st ELSE AddValidationErrors(st, cap, i, MPath(insts[i].comps, garble), insts[i].msgs))
                   ELSE MValidators(st, cap, i, insts[i], 1, garble)
-       IN MFields(st1, cap, insts, i + 1, fixed, garble)
+       IN MFields(st1, cap, insts, i + 1, fixed, garble, pol)
 
 \* LoadObject: ... SplitAndSerialize ... context.OnFinishSerialization()
 MG(s, inst, fixed, garble) ==
-  LET st == MFields([map |-> <<>>, thrown |-> FALSE, stop |-> 0], s.cap, inst, 1, fixed, garble)
-  IN [rep  |-> SubSeq([k \in 1..Len(st.map) |-> [i |-> st.map[k].i, msgs |-> st.map[k].msgs]], 1, Len(st.map)),
-      exc  |-> st.thrown \/ st.map # <<>>,
-      stop |-> st.stop]
+  LET st == MFields([map |-> <<>>, thrown |-> FALSE, stop |-> 0, mm |-> FALSE], s.cap, inst, 1, fixed, garble, s.pol)
+  IN [rep  |-> IF st.mm THEN <<>> ELSE SubSeq([k \in 1..Len(st.map) |-> [i |-> st.map[k].i, msgs |-> st.map[k].msgs]], 1, Len(st.map)),
+      exc  |-> ~st.mm /\ (st.thrown \/ st.map # <<>>),
+      stop |-> st.stop,
+      mm   |-> st.mm]
 M(s, inst, fixed) == MG(s, inst, fixed, "no")
 MGarbled(s, inst) ==
   MG(s, inst, TRUE, IF s.place = "map" /\ (\A k \in 1..Len(s.fields) : s.fields[k].doc[1] = "absent") THEN "keepelem" ELSE "all")
@@ -277,7 +349,7 @@ MergeErrs(fam, s, inst, rep, acc) ==
 
 Errs(fam, s, inst, r) == MergeErrs(fam, s, inst, r.rep, <<>>)
 
-ValsUnspecified(s, r) == r.stop # 0 /\ s.place \notin {"flat", "nested"}
+ValsUnspecified(s, r) == r.mm \/ (r.stop # 0 /\ s.place \notin {"flat", "nested"})
 Vals(s, inst, r) ==
   IF ValsUnspecified(s, r) THEN <<"unspecified">>
   ELSE [i \in 1..Len(inst) |->
@@ -286,10 +358,10 @@ Vals(s, inst, r) ==
           ELSE IF inst[i].msgs # <<>> THEN <<"any">>
           ELSE IF IsLoaded(f.t, f.doc) THEN LoadedValue(f.t, f.doc) ELSE PriorValue(f.t)]     \* passing fields are loaded normally
 
-Obs(s, inst, r) == [exc |-> IF r.exc THEN <<"validation">> ELSE <<"none">>,
+Obs(s, inst, r) == [exc |-> IF r.mm THEN <<"ser", "Mismatched types">> ELSE IF r.exc THEN <<"validation">> ELSE <<"none">>,
                     errs |-> Errs("json", s, inst, r), errsxml |-> Errs("xml", s, inst, r), vals |-> Vals(s, inst, r)]
 \* observation under Dev_MsgPackStreamParentKeyView (r = MGarbled(s, inst)); errs with parent keys rendered as "?"
-ObsGarbled(s, inst, r) == [exc |-> IF r.exc THEN <<"validation">> ELSE <<"none">>,
+ObsGarbled(s, inst, r) == [exc |-> IF r.mm THEN <<"ser", "Mismatched types">> ELSE IF r.exc THEN <<"validation">> ELSE <<"none">>,
                            errs |-> Errs("mpstream", s, inst, r), errsxml |-> <<>>, vals |-> Vals(s, inst, r)]
 
 -----------------------------------------------------------------------------
@@ -302,12 +374,17 @@ ObsGarbled(s, inst, r) == [exc |-> IF r.exc THEN <<"validation">> ELSE <<"none">
 (*  - XML element paths carry no array position: equal fields of two elements are one path, so the number of       *)
 (*    "fields" counted against the cap is not defined when the cap is not reached inside the first element          *)
 Archs(s) ==
-  LET strMis == \E k \in 1..NF(s) : s.fields[k].t = "str" /\ s.fields[k].doc[1] = "int"
-      strNull == \E k \in 1..NF(s) : s.fields[k].t = "str" /\ s.fields[k].doc[1] = "null"
-      allAbsent == \A k \in 1..NF(s) : s.fields[k].doc[1] = "absent"
-      failPerElem == Cardinality({k \in 1..NF(s) : FailMsgs(s.fields[k]) # <<>>})
+  LET F(k) == s.fields[k]
+      strMis == \E k \in 1..NF(s) : F(k).t = "str" /\ F(k).doc[1] = "int"
+      strNull == \E k \in 1..NF(s) : F(k).t = "str" /\ F(k).doc[1] = "null"
+      allAbsent == \A k \in 1..NF(s) : F(k).doc[1] = "absent"
+      structured == \E k \in 1..NF(s) : F(k).t \in {"vecint", "vecstr", "mapint", "obj"}          \* CSV holds flat records only
+      \* XML has no null: nullptr is written as an empty element, which is an (empty) VALUE - for a container or object
+      \* target that is a value of the wrong kind, so under ThrowError the document does not express "null"
+      xmlNoNull == s.pol = "throw" /\ \E k \in 1..NF(s) : F(k).t \in {"vecint", "vecstr", "mapint", "obj"} /\ F(k).doc[1] = "null"
+      failPerElem == Cardinality({k \in 1..NF(s) : FailMsgs(F(k)) # <<>>})
       xmlAmbiguous == IsArrayPlace(s.place) /\ s.nel > 1 /\ s.cap > 0 /\ failPerElem > 0 /\ failPerElem < s.cap
   IN {"json", "msgpack"}
-     \cup (IF ~strMis /\ ~xmlAmbiguous /\ ~(allAbsent /\ s.place # "flat") THEN {"xml"} ELSE {})
-     \cup (IF s.place = "rootarr" /\ ~strMis /\ ~strNull /\ ~allAbsent THEN {"csv"} ELSE {})
+     \cup (IF ~strMis /\ ~xmlAmbiguous /\ ~xmlNoNull /\ ~(allAbsent /\ s.place # "flat") THEN {"xml"} ELSE {})
+     \cup (IF s.place = "rootarr" /\ ~strMis /\ ~strNull /\ ~allAbsent /\ ~structured THEN {"csv"} ELSE {})
 =============================================================================
